@@ -1,3 +1,4 @@
+import WmModel.Props.C07Locks
 import WmModel.Props.C07Term
 import WmModel.Props.C05Reg
 import WmModel.Props.C07
@@ -16,3 +17,7 @@ import WmModel.Props.C07
 #print axioms Wm.GcReg.after_close_errors
 #print axioms Wm.GcReg.close_returned_means_closed
 #print axioms Wm.GcReg.closed_lock_owner
+#print axioms Wm.GcReg.writer_excludes_readers
+#print axioms Wm.GcReg.writers_exclusive
+#print axioms Wm.GcReg.topic_mutex_exclusive
+#print axioms Wm.GcReg.publish_and_subscribe_regions_exclusive
